@@ -71,6 +71,7 @@ type Driver struct {
 	FeeAmt   int64
 	Prices   map[string]math.LegacyDec // last fed price per display name
 	Dt       int64
+	collect  *[]TxSpec // non-nil: queue() collects instead of queuing (composite transactions)
 }
 
 func NewDriver(c *Chain) *Driver {
@@ -197,7 +198,42 @@ func otherDenom(p ammtypes.Pool, denom string) string {
 }
 
 func (d *Driver) queue(signer string, ev *Event, msgs ...sdk.Msg) {
+	if d.collect != nil {
+		*d.collect = append(*d.collect, TxSpec{Signer: signer, Msgs: msgs, Fee: d.fee(), Ev: ev})
+		return
+	}
 	d.C.Queue(TxSpec{Signer: signer, Msgs: msgs, Fee: d.fee(), Ev: ev})
+}
+
+// rolledBack turns a step into ONE transaction that is certain to fail after its messages ran: the step's message(s)
+// (`times` copies: the second copy reads what the first wrote) followed by a bank send of a coin the signer does not hold.
+// BaseApp discards the transaction's whole branch, so whatever the messages did - store writes, hooks, transient entries -
+// must leave no trace (C18: "a user transaction that hits a state problem fails alone and is rolled back"; C19: nothing a
+// discarded branch did may survive in process memory).  The event is named multi.rolledback: no per-message contract
+// applies to it, only the generic ones (a failed transaction changes nothing but the fee).
+func (d *Driver) rolledBack(inner Step, times int) bool {
+	var got []TxSpec
+	d.collect = &got
+	func() {
+		defer func() { d.collect = nil }()
+		d.Apply(inner)
+	}()
+	if len(got) != 1 || len(got[0].Msgs) == 0 {
+		for _, t := range got { // anything else the step queued goes out unchanged
+			d.C.Queue(t)
+		}
+		return len(got) > 0
+	}
+	t := got[0]
+	var msgs []sdk.Msg
+	for i := 0; i < times; i++ {
+		msgs = append(msgs, t.Msgs...)
+	}
+	msgs = append(msgs, &banktypes.MsgSend{FromAddress: d.addr(t.Signer), ToAddress: d.addr("bot"), Amount: sdk.NewCoins(sdk.NewInt64Coin("uvoid", 1))})
+	ev := newEvent("multi.rolledback", t.Signer)
+	ev.Args["inner"], ev.Args["times"] = t.Ev.Name, times
+	d.C.Queue(TxSpec{Signer: t.Signer, Msgs: msgs, Fee: t.Fee, Ev: ev})
+	return true
 }
 
 func posReqs(d *Driver, v any) (out []any) {
@@ -216,6 +252,24 @@ func (d *Driver) Apply(s Step) bool {
 	a := c.App
 	user := s.S("u")
 	switch s.S("a") {
+	case "poison", "twin": // the inner step as a transaction that is rolled back after its message(s) ran (twin: message twice)
+		inner, _ := s["inner"].(map[string]any)
+		if inner == nil {
+			return false
+		}
+		n := 1
+		if s.S("a") == "twin" {
+			n = 2
+		}
+		return d.rolledBack(Step(inner), n)
+
+	case "createAssetInfo": // the permissionless oracle listing of a denom
+		ev := newEvent("oracle.MsgCreateAssetInfo", user)
+		ev.Args["denom"] = s.S("d")
+		d.queue(user, ev, &oracletypes.MsgCreateAssetInfo{Creator: d.addr(user), Denom: s.S("d"), Display: s.S("display"),
+			BandTicker: s.S("display"), ElysTicker: s.S("display"), Decimal: 6})
+		return true
+
 	case "block":
 		dt := s.I("dt")
 		if dt == 0 {
